@@ -335,7 +335,15 @@ fn gen_source(rng: &mut Rng, big: bool) -> (String, &'static str, bool) {
     o.crlf = rng.chance(1, 8);
     o.unicode = rng.chance(1, 4);
     let (p, _) = jsgen::gen_program(rng, o);
-    match rng.below(29) {
+    match rng.below(33) {
+        31 | 32 => {
+            let n = *rng.pick(&[64usize, 65, 100, 128, 255, 256, 257, 511, 512, 513, 600, 1024]);
+            (jsgen::gen_repeat(rng, n), "repeated-construct", true)
+        }
+        29 | 30 => {
+            let n = rng.range(1, 5);
+            (jsgen::gen_module(rng, n), "module-syntax", true)
+        }
         26..=28 => {
             let n = rng.range(1, 4);
             let t = jsgen::gen_corpus(rng, n);
